@@ -1,6 +1,8 @@
 (** Token-level runner of C11 histories: everything of Model/RunSrv.v plus
-    [TB "AOFREAD"]
+    [TB "AOFREAD"; TI t]
         -> [TB file bytes; TI 0 (ends on a frame boundary) / 1; TI n; the n frames decoded from the file]
+        in the canonical form of Model/Aof.v canon_record (PEXPIREAT deadlines as "still ahead at t" 1 / 0,
+        SREM members sorted)
     [TB "AOFREPLAY"; TI c; TI t; TI mode; TI k; k dump request frames; (TI n; n replies of the replay server)]
         the logged commands are re-executed at time t on an empty server (the replies of the
         implementation's second server serve as oracles for random commands); the k dump requests are
